@@ -243,40 +243,6 @@ func loadDetails(path string) []detail {
 	return out
 }
 
-var words = []string{"foo", "bar", "main", "abc", "func", "oo b", "x", "fo", "baz", "fooo", "bax", "abbc", "cx", "Foo", "BAR", "zz"}
-
-// realCorpusShard generates a shard with real contents: 1–3 repositories, unique file names, ASCII text.
-func realCorpusShard(r *gen.Rand, sg *q1q.SGen, names []string, ids []uint32, tombstones bool) *q1q.Shard {
-	s := &q1q.Shard{FeatureVersion: index.FeatureVersion}
-	for i, n := range names {
-		rp := sg.Repo(n, ids[i])
-		if tombstones && len(names) > 0 && r.Chance(1, 5) {
-			rp.Tombstone = true
-		}
-		s.Repos = append(s.Repos, rp)
-		nd := r.Range(1, 4)
-		for j := 0; j < nd; j++ {
-			d := q1q.Doc{Repo: i, Name: fmt.Sprintf("%s%d", []string{"a.go", "dir/main.go", "foo.txt", "README", "b.py", "x"}[r.Intn(6)], j), Lang: gen.Pick(r, q1q.LangNames)}
-			if j == 0 && r.Chance(1, 2) {
-				d.Name = gen.Pick(r, q1q.FileNames)
-			}
-			for b := range rp.Branches {
-				if r.Chance(2, 3) {
-					d.Branches = append(d.Branches, b)
-				}
-			}
-			var sb strings.Builder
-			for k := r.Range(0, 12); k > 0; k-- {
-				sb.WriteString(gen.Pick(r, words))
-				sb.WriteString(gen.Pick(r, []string{" ", "\n", " ", "(", ""}))
-			}
-			d.Content = sb.String()
-			s.Docs = append(s.Docs, d)
-		}
-	}
-	return s
-}
-
 func main() {
 	f := gen.ParseFlags()
 	w := gen.NewWriter(f.Out)
@@ -335,7 +301,7 @@ func main() {
 		if r.Chance(1, 2) {
 			nr = r.Range(2, 3)
 		}
-		s := realCorpusShard(r, sg, names[:nr], sids[:nr], true)
+		s := q1q.RealShard(r, sg, names[:nr], sids[:nr], true, "")
 		qg := &q1q.QGen{R: r, IDs: ids, TypeKinds: []uint8{1}, NoCaseScope: true, SafeSymbol: true}
 		var qs []query.Q
 		for k := 0; k < 12; k++ {
